@@ -25,10 +25,11 @@ type Tape struct {
 	Seed    uint64
 	replay  bool
 	mu      sync.Mutex
-	streams map[string]*stream
+	streams []*stream // no Go map here: the runtime's map code is race-instrumented even for //go:norace callers
 }
 
 type stream struct {
+	name  string
 	state uint64
 	rec   []uint32
 	play  []uint32
@@ -70,7 +71,7 @@ func Mix(seed uint64, idx uint64) uint64 {
 
 // NewTape returns a search-mode tape.
 func NewTape(seed uint64) *Tape {
-	return &Tape{Seed: seed, streams: map[string]*stream{}}
+	return &Tape{Seed: seed}
 }
 
 // ReplayFile is the on-disk form of a tape together with what it reproduced.
@@ -97,9 +98,9 @@ type ReplayFile struct {
 
 // NewReplayTape returns a replay-mode tape over recorded streams.
 func NewReplayTape(seed uint64, streams map[string][]uint32) *Tape {
-	t := &Tape{Seed: seed, replay: true, streams: map[string]*stream{}}
+	t := &Tape{Seed: seed, replay: true}
 	for k, v := range streams {
-		t.streams[k] = &stream{play: append([]uint32(nil), v...)}
+		t.streams = append(t.streams, &stream{name: k, play: append([]uint32(nil), v...)})
 	}
 	return t
 }
@@ -126,11 +127,13 @@ func (rf *ReplayFile) Save(path string) error {
 
 //go:norace
 func (t *Tape) get(name string) *stream {
-	s := t.streams[name]
-	if s == nil {
-		s = &stream{state: t.Seed ^ hashString(name)*0x9e3779b97f4a7c15}
-		t.streams[name] = s
+	for _, s := range t.streams {
+		if s.name == name {
+			return s
+		}
 	}
+	s := &stream{name: name, state: t.Seed ^ hashString(name)*0x9e3779b97f4a7c15}
+	t.streams = append(t.streams, s)
 	return s
 }
 
@@ -245,9 +248,9 @@ func (t *Tape) Recorded() map[string][]uint32 {
 	raceOff()
 	t.mu.Lock()
 	out := map[string][]uint32{}
-	for k, s := range t.streams {
+	for _, s := range t.streams {
 		if len(s.rec) > 0 {
-			out[k] = append([]uint32(nil), s.rec...)
+			out[s.name] = append([]uint32(nil), s.rec...)
 		}
 	}
 	t.mu.Unlock()
